@@ -35,7 +35,7 @@ AXIS_POOL = [("wght", "Weight"), ("wdth", "Width"), ("SKIN", "Skin"), ("MOOD", "
 def gen(r):
     if r.random() < 0.6:
         nm = r.choice([2, 2, 3])
-        positions = sorted(r.sample([100, 200, 300, 400, 500, 700, 900], nm))
+        positions = sorted(r.sample([100, 200, 300, 400, 500, 700, 900, 62.5, 87.5, 350.5], nm))
         axes = [("wght", "Weight")]
         locations = [{"wght": p} for p in positions]
         default = {"wght": r.choice(positions)}
@@ -45,7 +45,7 @@ def gen(r):
         axes = r.sample(AXIS_POOL, 2)
         vals = {}
         for tag, _ in axes:
-            a, b = sorted(r.sample([0, 50, 100, 200, 400, 700, 900], 2))
+            a, b = sorted(r.sample([0, 50, 100, 200, 400, 700, 900, 62.5, 87.5, 10.5, 151.25], 2))
             vals[tag] = (a, b) if r.random() < 0.6 else (b, a)  # (default, other)
         t0, t1 = axes[0][0], axes[1][0]
         default = {t0: vals[t0][0], t1: vals[t1][0]}
